@@ -230,6 +230,8 @@ pub struct PageState {
     pub sys: Vec<u64>,
     pub dfreed: BTreeMap<u64, Vec<u64>>,
     pub sfreed: BTreeMap<u64, Vec<u64>>,
+    /// DATA_ALLOCATED_TABLE (for the algorithmic life-cycle model, `Redb.Life2`)
+    pub dalloc: BTreeMap<u64, Vec<u64>>,
 }
 
 // ---------------------------------------------------------------------------------- world
@@ -279,6 +281,9 @@ pub struct World {
     pub(crate) window: Vec<(Model, BTreeMap<u64, Psp>)>,
     /// (durable transaction id, fingerprint of its data tree, of its system tree)
     pub(crate) durable_fp: Option<(u64, u64, u64)>,
+    /// what the last step actually did, for the algorithmic life-cycle model (`Redb.Life2`):
+    /// `key=value` tokens appended to the `hist step` line after the result
+    pub(crate) step_extra: String,
 }
 
 fn dur_name(d: Durability) -> &'static str {
@@ -293,7 +298,7 @@ impl World {
     pub(crate) fn new(cfg: Cfg, focus: &str) -> Self {
         let backend = MemBackend::fresh();
         let db = open_db(backend.clone(), &cfg).expect("create database");
-        World { cfg, backend, db: Some(db), committed: Model::default(), readers: vec![], sps: vec![], psp: BTreeMap::new(), step_no: 0, focus: focus.to_string(), window: vec![(Model::default(), BTreeMap::new())], durable_fp: None }
+        World { cfg, backend, db: Some(db), committed: Model::default(), readers: vec![], sps: vec![], psp: BTreeMap::new(), step_no: 0, focus: focus.to_string(), window: vec![(Model::default(), BTreeMap::new())], durable_fp: None, step_extra: String::new() }
     }
 
     pub(crate) fn db(&self) -> &Database {
@@ -324,10 +329,14 @@ impl World {
         for (t, p) in &owners.system_freed {
             sfreed.entry(*t).or_default().extend(order0(*p, rmp));
         }
-        for v in dfreed.values_mut().chain(sfreed.values_mut()) {
+        let mut dalloc: BTreeMap<u64, Vec<u64>> = BTreeMap::new();
+        for (t, p) in &owners.data_allocated {
+            dalloc.entry(*t).or_default().extend(order0(*p, rmp));
+        }
+        for v in dfreed.values_mut().chain(sfreed.values_mut()).chain(dalloc.values_mut()) {
             v.sort_unstable();
         }
-        Ok(PageState { alloc, data: expand_pages(&owners.data_tree_pages, rmp), sys: expand_pages(&owners.system_tree_pages, rmp), dfreed, sfreed })
+        Ok(PageState { alloc, data: expand_pages(&owners.data_tree_pages, rmp), sys: expand_pages(&owners.system_tree_pages, rmp), dfreed, sfreed, dalloc })
     }
 
     /// S: every allocated page has exactly one owner; pins lie inside the allocated set;
@@ -465,8 +474,40 @@ impl World {
         } else {
             snap.tracker.live_read_transactions.iter().map(|(k, v)| format!("{k}*{v}")).collect::<Vec<_>>().join(",")
         };
+        // additional fields for the algorithmic model (`Redb.Life2`): everything the bookkeeping
+        // algorithm keeps, as far as the read-only hooks show it
+        let expand_map = |m: &BTreeMap<u64, Vec<u64>>| -> BTreeMap<u64, Vec<u64>> {
+            m.iter().filter(|(_, v)| !v.is_empty()).map(|(t, v)| (*t, expand_pages(v, rmp))).collect()
+        };
+        let list = |v: Vec<String>| if v.is_empty() { "-".to_string() } else { v.join(",") };
+        let mut spp: Vec<String> = vec![];
+        for s in &self.sps {
+            let (sid, id, root, _) = s.sp.verif_info();
+            if let Ok(pages) = self.db().verif_tree_pages(root) {
+                spp.push(format!("{sid}:{id}:{}", ranges(&expand_pages(&pages, rmp))));
+            }
+        }
+        for (sid, p) in &self.psp {
+            if let Ok(pages) = self.db().verif_tree_pages(p.root) {
+                spp.push(format!("{sid}:{}:{}", p.pin_id, ranges(&expand_pages(&pages, rmp))));
+            }
+        }
+        let extra = format!(
+            " next={} nsp={} udfreed={} dalloc={} ualloc={} unp={} pca={} vsp={} pend={} unproc={} spp={}",
+            snap.tracker.next_transaction_id,
+            snap.tracker.next_savepoint_id,
+            rec(&expand_map(&snap.mem.unpersisted_data_freed)),
+            rec(&ps.dalloc),
+            rec(&expand_map(&snap.mem.unpersisted_allocations)),
+            ranges(&expand_pages(&snap.mem.unpersisted_pages, rmp)),
+            ranges(&expand_pages(&snap.mem.post_commit_allocations, rmp)),
+            list(snap.tracker.valid_savepoints.iter().map(|(k, v)| format!("{k}:{v}:{}", if snap.tracker.persistent_savepoints.contains(k) { "p" } else { "e" })).collect()),
+            list(snap.tracker.pending_non_durable_commits.iter().map(|(k, v)| format!("{k}:{v}")).collect()),
+            list(snap.tracker.unprocessed_freed_non_durable_commits.iter().map(|k| k.to_string()).collect()),
+            if spp.is_empty() { "-".to_string() } else { spp.join(";") },
+        );
         out.line(&format!(
-            "hist state id={} dur={} alloc={} data={} sys={} dfreed={} sfreed={} dsys={} pins={} live={}",
+            "hist state id={} dur={} alloc={} data={} sys={} dfreed={} sfreed={} dsys={} pins={} live={}{extra}",
             snap.mem.latest_transaction_id,
             snap.mem.durable_transaction_id,
             ranges(&ps.alloc),
@@ -517,6 +558,8 @@ impl World {
         let mut deleted_psp: Vec<u64> = vec![];
         let mut invalidated_after: Option<u64> = None; // savepoint ids > this are invalid after commit
         let mut result = "ok".to_string();
+        // executed savepoint operations, for the algorithmic model: e<sid> p<sid> d<sid> r<sid>
+        let mut spx: Vec<String> = vec![];
         let db = self.db.as_ref().unwrap();
         let mut txn = match db.begin_write() {
             Ok(t) => t,
@@ -533,7 +576,8 @@ impl World {
             match op {
                 SpOp::Ephemeral => match txn.ephemeral_savepoint() {
                     Ok(sp) => {
-                        let (_, id, root, _) = sp.verif_info();
+                        let (sid, id, root, _) = sp.verif_info();
+                        spx.push(format!("e{sid}"));
                         let fp = db.verif_tree_fingerprint(root).unwrap_or(0);
                         new_sps.push(Sp { sp, expect: self.committed.clone(), id, root, persistent_id: None, fp });
                     }
@@ -542,7 +586,10 @@ impl World {
                 SpOp::Persistent => {
                     if spec.immediate() {
                         match txn.persistent_savepoint() {
-                            Ok(id) => created_psp.push((id, Psp { expect: self.committed.clone(), root: snap_before.mem.latest_data_root, pin_id: snap_before.mem.latest_transaction_id, fp: db.verif_tree_fingerprint(snap_before.mem.latest_data_root).unwrap_or(0) })),
+                            Ok(id) => {
+                                spx.push(format!("p{id}"));
+                                created_psp.push((id, Psp { expect: self.committed.clone(), root: snap_before.mem.latest_data_root, pin_id: snap_before.mem.latest_transaction_id, fp: db.verif_tree_fingerprint(snap_before.mem.latest_data_root).unwrap_or(0) }))
+                            }
                             Err(e) => out.oracle_fail(format!("savepoint-create|persistent_savepoint() failed: {e:?}")),
                         }
                     }
@@ -554,7 +601,10 @@ impl World {
                             continue;
                         }
                         match txn.delete_persistent_savepoint(id) {
-                            Ok(true) => deleted_psp.push(id),
+                            Ok(true) => {
+                                spx.push(format!("d{id}"));
+                                deleted_psp.push(id)
+                            }
                             Ok(false) => out.oracle_fail(format!("savepoint-delete|persistent savepoint {id} reported missing")),
                             Err(e) => out.oracle_fail(format!("savepoint-delete|{e:?}")),
                         }
@@ -573,6 +623,7 @@ impl World {
                             if blocked {
                                 out.oracle_fail("savepoint-restore|restore accepted although a later persistent savepoint exists and durability is None".into());
                             }
+                            spx.push(format!("r{sid}"));
                             work = s.expect.clone();
                             invalidated_after = Some(sid);
                             created_psp.retain(|(p, _)| *p <= sid);
@@ -604,6 +655,7 @@ impl World {
                                 if blocked {
                                     out.oracle_fail("savepoint-restore|restore accepted although a later persistent savepoint exists and durability is None".into());
                                 }
+                                spx.push(format!("r{id}"));
                                 work = self.psp[&id].expect.clone();
                                 invalidated_after = Some(id);
                                 created_psp.retain(|(p, _)| *p <= id);
@@ -760,6 +812,7 @@ impl World {
                 false
             }
         };
+        self.step_extra = format!("spx={}", if spx.is_empty() { "-".to_string() } else { spx.join(",") });
         if committed {
             self.committed = work;
             self.sps.append(&mut new_sps);
@@ -1176,6 +1229,7 @@ impl World {
             out.flush();
         }
         self.step_no += 1;
+        self.step_extra.clear();
         let desc = describe(step);
         out.count(&format!("step_{}", desc.split(|c| c == ' ' || c == '(').next().unwrap()));
         let res = match step {
@@ -1195,6 +1249,7 @@ impl World {
                     "none".into()
                 } else {
                     let i = *k % self.readers.len();
+                    self.step_extra = format!("rid={}", self.readers[i].id);
                     drop(self.readers.remove(i));
                     "ok".into()
                 }
@@ -1204,6 +1259,7 @@ impl World {
                     "none".into()
                 } else {
                     let i = *k % self.sps.len();
+                    self.step_extra = format!("sid={}", self.sps[i].sp.verif_info().0);
                     drop(self.sps.remove(i));
                     "ok".into()
                 }
@@ -1237,7 +1293,8 @@ impl World {
                 "ok".into()
             }
         };
-        out.line(&format!("hist step {desc} => {res}"));
+        let extra = if self.step_extra.is_empty() { String::new() } else { format!(" {}", self.step_extra) };
+        out.line(&format!("hist step {desc} => {res}{extra}"));
         if self.db.is_none() {
             return false;
         }
@@ -1274,19 +1331,29 @@ pub fn run_history(steps: &[Step], cfg: Cfg, focus: &str, out: &mut Out) -> bool
     // quiescence: no readers, no savepoints, two drain commits: every pending-free record is gone
     if ok && w.db.is_some() {
         let r = catch_unwind(AssertUnwindSafe(|| {
+            // every sub-step is reported with its own state line, so that the algorithmic model
+            // (`Redb.Life2`) can follow the drain commit by commit
             w.readers.clear();
             w.sps.clear();
+            out.line("hist step quiesce-drop => ok");
+            w.check_state(out, "quiesce-drop");
             if !w.psp.is_empty() {
                 let txn = w.db().begin_write().unwrap();
+                let mut spx = vec![];
                 for id in w.psp.keys() {
                     txn.delete_persistent_savepoint(*id).unwrap();
+                    spx.push(format!("d{id}"));
                 }
                 txn.commit().unwrap();
                 w.psp.clear();
+                out.line(&format!("hist step txn dur=imm 2pc=0 qr=0 sp=DeleteAll ops= end=Commit => ok spx={}", spx.join(",")));
+                w.check_state(out, "quiesce-delete");
             }
             for _ in 0..3 {
                 let txn = w.db().begin_write().unwrap();
                 txn.commit().unwrap();
+                out.line("hist step txn dur=imm 2pc=0 qr=0 sp= ops= end=Commit => ok spx=-");
+                w.check_state(out, "quiesce-commit");
             }
             let snap = w.db().verif_snapshot();
             if let Ok(ps) = w.page_state(&snap) {
